@@ -4,6 +4,8 @@ from __future__ import annotations
 import re
 
 import numpy as np
+import contextlib
+
 import z3
 
 from symfl import core, install as inst
@@ -47,7 +49,7 @@ def sym_float_builtin(x=0.0):
     return float(x)
 
 
-def make_syms(ob_pre, ins, unit_heights=False, used=None):
+def make_syms(ob_pre, ins, unit_heights=False, used=None, decimals=None):
     """-> sym(name, kind) creating symbolic numbers and recording preconditions / replay inputs.
     Heights and weights: the statement's precondition has two cases - exactly 1 (unit_heights=True: the concrete 1.0) or
     further from 1 than the tolerance (symbolic)."""
@@ -58,6 +60,8 @@ def make_syms(ob_pre, ins, unit_heights=False, used=None):
             return 1.0
         x = rvar(name)
         ob_pre.append(z3.And(x.v >= -10 ** 4, x.v <= 10 ** 4))      # replays round the witness to the decimals grid
+        if decimals is not None:      # the statement's precondition made explicit: the value is representable at the decimals in force
+            ob_pre.append(x.v == z3.ToReal(z3.Int(f"grid!{name}")) / (10 ** decimals))
         if kind == "u":
             ob_pre.append(z3.And(x.v >= 0, x.v <= 1))
         elif kind in ("h", "w"):
@@ -196,14 +200,19 @@ def compare(a, b, path, problems, seen):
 '''
 
 
-def ob_engine(name, make, tier, label, unit_heights=False):
+def ob_engine(name, make, tier, label, unit_heights=False, decimals=None):
+    """decimals: the whole round trip runs under settings.context(decimals=...) with every parameter on that grid; a number printed with
+    fewer decimals than those in force then stands for the ROUNDED value (symfl: SymFloat.__format__)"""
     def run(ob):
         fl = install()
         set_mode("R")
         S.box_scalars = True
+        S.format_decimals = decimals
+        GRID = 10 ** (decimals if decimals is not None else 3)
+        ctx = (lambda: fl.settings.context(decimals=decimals)) if decimals is not None else contextlib.nullcontext
         build = regeng.builder(fl)
         pre, ins = [], {}
-        sym = make_syms(pre, ins, unit_heights)
+        sym = make_syms(pre, ins, unit_heights, decimals=decimals)
         spec = make(sym)
         pre += spec_pre(spec, ins)
         names_in = [iv["name"] for iv in spec["inputs"]]
@@ -219,7 +228,9 @@ def ob_engine(name, make, tier, label, unit_heights=False):
             sp = regeng.spec_literal({k: val for k, val in spec.items() if k in ("name", "description", "inputs", "outputs", "blocks", "share_components")}, lit, lambda x: g(v[rev[id(x)]]))
             wl = "{" + ", ".join(f"{k!r}: {lit(g(v[rev[id(w)]]) if id(w) in rev else w)}" for k, w in spec.get("weights", {}).items()) + "}"
             return "\n".join([regeng.PY_BUILD, PY_COMPARE, f"spec = {sp}", f"weights = {wl}", "import warnings; warnings.simplefilter('ignore')",
+                              f"fl.settings.decimals = {decimals if decimals is not None else 3}",
                               "e = build_engine(spec, weights)", "bad = []",
+                              (f"with fl.settings.context(decimals=3): fl.FllExporter().to_string(e)      # an earlier export under other decimals leaves no trace" if decimals is not None else "pass"),
                               "t1 = fl.FllExporter().to_string(e); e2 = fl.FllImporter().from_string(t1); t2 = fl.FllExporter().to_string(e2)",
                               "if t1 != t2: bad.append('re-exported text differs:\\n%s\\n---\\n%s' % (t1, t2))",
                               "compare(e, e2, 'engine', bad, set())",
@@ -237,8 +248,11 @@ def ob_engine(name, make, tier, label, unit_heights=False):
         def body():
             S.tokens.clear()
             S.token_of.clear()
-            with inst.shadow(fl.rule, float=sym_float_builtin):
+            with inst.shadow(fl.rule, float=sym_float_builtin), ctx():
                 e = build({k: val for k, val in spec.items() if k in ("name", "description", "inputs", "outputs", "blocks", "share_components")}, spec.get("weights"))
+                if decimals is not None:
+                    with fl.settings.context(decimals=3):
+                        fl.FllExporter().to_string(e)      # an earlier export under other decimals leaves no trace
                 t1 = fl.FllExporter().to_string(e)
                 e2 = fl.FllImporter().from_string(t1)
                 t2 = fl.FllExporter().to_string(e2)
@@ -299,4 +313,7 @@ def obligations(tier, seed):
         make(make_syms([], {}, True, used))
         if used & {"h", "w"}:
             obs.append((f"roundtrip/{name}/unit-height", ob_engine(name, make, tier, f"roundtrip/{name}/unit-height", unit_heights=True)))
+        # the same round trip with more decimals in force than the default (every number on that finer grid)
+        if tier != "quick" or name.startswith(("activation/", "rule-weights", "flags", "term/Constant", "term/Discrete", "defuzzifier/WeightedAverage")):
+            obs.append((f"roundtrip/{name}/decimals5", ob_engine(name, make, tier, f"roundtrip/{name}/decimals5", decimals=5)))
     return obs
